@@ -145,7 +145,7 @@ def _check(prog, rep):
             r3.check(False, "branching", "", "", "a path of the output pass decides neither starts_with(line, margin) nor BLANK(line)", site=site)
             continue
         cases.add(emit)
-        tail = ("field", ("call", "str::split_at", (L_out, ("call", "str::len", (margin,)))), "1")
+        tail = ("call", "Index::index", (L_out, ("adt", "std::ops::RangeFrom", "RangeFrom", (("start", ("call", "str::len", (margin,))),))))
         exp = ([("String::push_str", tail)] if emit else []) + [("String::push", NL)]
         r3.check(evs == exp, "trace:%s" % ("emit" if emit else "skip"),
                  "a %s line contributes %s" % ("non-blank margin-prefixed" if emit else "blank or unprefixed",
